@@ -355,6 +355,38 @@ def table_kernel_oracle(rng):
     return None
 
 
+def verbose_oracle():
+    """a documented option of fit: when the optional progress bar cannot be imported the call fails - but a trained model
+    must not have been wiped by then"""
+    try:
+        import tqdm  # noqa: F401
+        return []
+    except Exception:
+        pass
+    import artlib
+    fails = []
+    X = np.array([[0.1, 0.9], [0.9, 0.1], [0.5, 0.5], [0.12, 0.88]])
+    for name, mk, fit in (("FuzzyART", lambda: artlib.FuzzyART(0.7, 1e-3, 1.0), lambda e: e.fit(X, verbose=True)),
+                          ("SimpleARTMAP", lambda: artlib.SimpleARTMAP(artlib.FuzzyART(0.7, 1e-3, 1.0)), lambda e: e.fit(X, np.array([0, 1, 0, 0]), verbose=True))):
+        est = mk()
+        if name == "FuzzyART":
+            est.fit(X)
+            n0 = len(est.W)
+        else:
+            est.fit(X, np.array([0, 1, 0, 0]))
+            n0 = len(est.module_a.W)
+        try:
+            fit(est)
+        except ModuleNotFoundError:
+            n1 = len(est.W) if name == "FuzzyART" else len(est.module_a.W)
+            if n1 != n0:
+                fails.append({"signature": f"{name}/verbose-wipes-the-model", "text": f"{name}.fit(verbose=True) raised ModuleNotFoundError (tqdm) after the model had been reset: {n0} categories before, {n1} after",
+                              "replay": {"estimator": name, "X": X.tolist()}})
+        except Exception:
+            pass
+    return fails
+
+
 def refit_oracle(rng):
     """the search of a fit call on a USED estimator (trained, then read: predict, W, n_clusters, cluster centres): its
     first sample founds category 0 and every sample is assigned as in the one-sample-at-a-time presentation on a
@@ -492,6 +524,8 @@ def main():
         r = table_kernel_oracle(rng_t)
         if r:
             fails.append(r)
+
+    fails.extend(verbose_oracle())
 
     # fit on a used estimator (after training and reads)
     rng_r = C.make_rng(seed, "C01-refit")
